@@ -2,5 +2,348 @@ import PyCliffordModel.Proofs.Compose
 import PyCliffordModel.Spec.Tableau
 /-! # Proofs/StateLemmas — helper lemmas for C12/C19 (map/state conversion, constructors, independence of the active rows) -/
 namespace PC
+namespace St
+open Tr Cp
 
+/-! ## list reshuffling: `map_to_state` / `state_to_map` -/
+
+theorem rowAt_eq (T : List Pauli) (j : Nat) : rowAt T j = (T[j]?).getD ⟨[], 0⟩ := by
+  simp [rowAt]
+
+theorem length_flatMap2 {α : Type} (f g : Nat → α) (n : Nat) :
+    ((List.range n).flatMap fun i => [f i, g i]).length = 2 * n := by
+  induction n with
+  | zero => simp
+  | succ n ih => rw [List.range_succ, List.flatMap_append]; simp [ih]; omega
+
+/-- entries `2i`, `2i+1` of a list of two-element blocks -/
+theorem getElem?_flatMap2 {α : Type} (f g : Nat → α) (n i : Nat) (h : i < n) :
+    ((List.range n).flatMap fun i => [f i, g i])[2 * i]? = some (f i) ∧
+    ((List.range n).flatMap fun i => [f i, g i])[2 * i + 1]? = some (g i) := by
+  induction n with
+  | zero => omega
+  | succ n ih =>
+    rw [List.range_succ, List.flatMap_append]
+    by_cases hi : i < n
+    · have := ih hi
+      rw [List.getElem?_append_left (by rw [length_flatMap2]; omega),
+        List.getElem?_append_left (by rw [length_flatMap2]; omega)]
+      exact this
+    · have : i = n := by omega
+      subst this
+      rw [List.getElem?_append_right (by rw [length_flatMap2]; omega),
+        List.getElem?_append_right (by rw [length_flatMap2]; omega), length_flatMap2]
+      simp
+
+theorem length_mapToState (M : List Pauli) : (mapToState M).length = 2 * (M.length / 2) := by
+  simp [mapToState]; omega
+
+theorem length_stateToMap (T : List Pauli) : (stateToMap T).length = 2 * (T.length / 2) := by
+  unfold stateToMap; exact length_flatMap2 _ _ _
+
+/-- stabilizer slot `k` of `map_to_state` is row `2k+1` of the map -/
+theorem rowAt_mapToState_lo (M : List Pauli) (k : Nat) (hk : k < M.length / 2) :
+    rowAt (mapToState M) k = rowAt M (2 * k + 1) := by
+  rw [rowAt_eq]
+  unfold mapToState
+  rw [List.getElem?_append_left (by simpa using hk)]
+  simp [hk]
+
+/-- destabilizer slot `n + k` of `map_to_state` is row `2k` of the map -/
+theorem rowAt_mapToState_hi (M : List Pauli) (k : Nat) (hk : k < M.length / 2) :
+    rowAt (mapToState M) (M.length / 2 + k) = rowAt M (2 * k) := by
+  rw [rowAt_eq]
+  unfold mapToState
+  rw [List.getElem?_append_right (by simp)]
+  simp [hk]
+
+theorem rowAt_stateToMap_even (T : List Pauli) (k : Nat) (hk : k < T.length / 2) :
+    rowAt (stateToMap T) (2 * k) = rowAt T (T.length / 2 + k) := by
+  rw [rowAt_eq]; unfold stateToMap
+  rw [(getElem?_flatMap2 _ _ _ k hk).1]; rfl
+
+theorem rowAt_stateToMap_odd (T : List Pauli) (k : Nat) (hk : k < T.length / 2) :
+    rowAt (stateToMap T) (2 * k + 1) = rowAt T k := by
+  rw [rowAt_eq]; unfold stateToMap
+  rw [(getElem?_flatMap2 _ _ _ k hk).2]; rfl
+
+/-- two lists of the same length with the same `rowAt` at every index are equal -/
+theorem ext_rowAt (A B : List Pauli) (hl : A.length = B.length)
+    (h : ∀ i, i < A.length → rowAt A i = rowAt B i) : A = B := by
+  apply List.ext_getElem hl
+  intro i h1 h2
+  have := h i h1
+  rwa [rowAt_of_lt A i h1, rowAt_of_lt B i h2] at this
+
+theorem stateToMap_mapToState (M : List Pauli) (n : Nat) (h : M.length = 2 * n) :
+    stateToMap (mapToState M) = M := by
+  have hn : M.length / 2 = n := by omega
+  have hT : (mapToState M).length = 2 * n := by rw [length_mapToState, hn]
+  have hTn : (mapToState M).length / 2 = n := by omega
+  apply ext_rowAt
+  · rw [length_stateToMap, hTn, h]
+  · intro i hi
+    rw [length_stateToMap, hTn] at hi
+    rcases Nat.mod_two_eq_zero_or_one i with he | he
+    · have : i = 2 * (i / 2) := by omega
+      rw [this, rowAt_stateToMap_even _ _ (by omega), hTn, ← hn,
+        rowAt_mapToState_hi _ _ (by omega)]
+    · have : i = 2 * (i / 2) + 1 := by omega
+      rw [this, rowAt_stateToMap_odd _ _ (by omega), rowAt_mapToState_lo _ _ (by omega)]
+
+theorem mapToState_stateToMap (T : List Pauli) (n : Nat) (h : T.length = 2 * n) :
+    mapToState (stateToMap T) = T := by
+  have hn : T.length / 2 = n := by omega
+  have hS : (stateToMap T).length = 2 * n := by rw [length_stateToMap, hn]
+  have hSn : (stateToMap T).length / 2 = n := by omega
+  apply ext_rowAt
+  · rw [length_mapToState, hSn, h]
+  · intro i hi
+    rw [length_mapToState, hSn] at hi
+    by_cases hlt : i < n
+    · rw [rowAt_mapToState_lo _ _ (by omega), rowAt_stateToMap_odd _ _ (by omega)]
+    · have : i = (stateToMap T).length / 2 + (i - n) := by omega
+      rw [this, rowAt_mapToState_hi _ _ (by omega), rowAt_stateToMap_even _ _ (by omega), hSn, hn]
+
+/-! ## rows of the identity map, exactly -/
+
+theorem length_idRows (n m : Nat) : (idRows n m).length = 2 * m := by
+  induction m with
+  | zero => rfl
+  | succ m ih => simp [idRows, ih]; omega
+
+theorem rowAt_idRows (n m k : Nat) (hk : k < m) :
+    rowAt (idRows n m) (2 * k) = ⟨unitX n k, 0⟩ ∧ rowAt (idRows n m) (2 * k + 1) = ⟨unitZ n k, 0⟩ := by
+  induction m with
+  | zero => omega
+  | succ m ih =>
+    rw [rowAt_eq, rowAt_eq]
+    simp only [idRows]
+    by_cases hi : k < m
+    · have := ih hi
+      rw [rowAt_eq, rowAt_eq] at this
+      rw [List.getElem?_append_left (by rw [length_idRows]; omega),
+        List.getElem?_append_left (by rw [length_idRows]; omega)]
+      exact this
+    · have : k = m := by omega
+      subst this
+      rw [List.getElem?_append_right (by rw [length_idRows]; omega),
+        List.getElem?_append_right (by rw [length_idRows]; omega), length_idRows]
+      simp
+
+theorem rowAt_idMap_X (n k : Nat) (hk : k < n) : rowAt (idMap n) (2 * k) = ⟨unitX n k, 0⟩ :=
+  (rowAt_idRows n n k hk).1
+theorem rowAt_idMap_Z (n k : Nat) (hk : k < n) : rowAt (idMap n) (2 * k + 1) = ⟨unitZ n k, 0⟩ :=
+  (rowAt_idRows n n k hk).2
+
+theorem idMap_half (n : Nat) : (idMap n).length / 2 = n := by rw [length_idMap]; omega
+
+theorem length_zeroState_rows (n : Nat) : (zeroState n).rows.length = 2 * n := by
+  show (mapToState (idMap n)).length = 2 * n
+  rw [length_mapToState, idMap_half]
+
+theorem rowAt_zeroState_lo (n k : Nat) (hk : k < n) : rowAt (zeroState n).rows k = ⟨unitZ n k, 0⟩ := by
+  show rowAt (mapToState (idMap n)) k = _
+  rw [rowAt_mapToState_lo _ _ (by rw [idMap_half]; exact hk), rowAt_idMap_Z n k hk]
+
+theorem rowAt_zeroState_hi (n k : Nat) (hk : k < n) : rowAt (zeroState n).rows (n + k) = ⟨unitX n k, 0⟩ := by
+  show rowAt (mapToState (idMap n)) (n + k) = _
+  have := rowAt_mapToState_hi (idMap n) k (by rw [idMap_half]; exact hk)
+  rw [idMap_half] at this
+  rw [this, rowAt_idMap_X n k hk]
+
+/-! ## `stabilizer_state` rejects anticommuting stabilizers -/
+
+theorem acqMat_any (gs : List PStr) (i j : Nat) (hi : i < gs.length) (hj : j < gs.length)
+    (h : acq gs[i] gs[j] = 1) : ((acqMat gs).any fun row => row.any (· != 0)) = true := by
+  rw [List.any_eq_true]
+  refine ⟨gs.map fun b => acq gs[i] b, ?_, ?_⟩
+  · unfold acqMat
+    exact List.mem_map.2 ⟨gs[i], List.getElem_mem hi, rfl⟩
+  · rw [List.any_eq_true]
+    refine ⟨acq gs[i] gs[j], List.mem_map.2 ⟨gs[j], List.getElem_mem hj, rfl⟩, ?_⟩
+    rw [h]; decide
+
+/-! ## `allBits` -/
+
+theorem length_allBits (w : Nat) : (allBits w).length = 2 ^ w := by
+  induction w with
+  | zero => rfl
+  | succ w ih => simp [allBits, ih]; omega
+
+theorem mem_allBits (w : Nat) : ∀ c : List Bool, c.length = w ↔ c ∈ allBits w := by
+  induction w with
+  | zero => intro c; simp [allBits]
+  | succ w ih =>
+    intro c
+    simp only [allBits, List.mem_append, List.mem_map]
+    constructor
+    · intro h
+      cases c with
+      | nil => simp at h
+      | cons b cs =>
+        have hcs : cs ∈ allBits w := (ih cs).1 (by simpa using h)
+        cases b
+        · exact Or.inl ⟨cs, hcs, rfl⟩
+        · exact Or.inr ⟨cs, hcs, rfl⟩
+    · rintro (⟨cs, hcs, rfl⟩ | ⟨cs, hcs, rfl⟩) <;> simp [(ih cs).2 hcs]
+
+theorem nodup_allBits (w : Nat) : (allBits w).Nodup := by
+  induction w with
+  | zero => simp [allBits]
+  | succ w ih =>
+    simp only [allBits]
+    rw [List.nodup_append]
+    refine ⟨List.Pairwise.map (fun x => false :: x) (fun a b h => by simpa using h) ih,
+      List.Pairwise.map (fun x => true :: x) (fun a b h => by simpa using h) ih, ?_⟩
+    intro a ha b hb
+    obtain ⟨x, _, rfl⟩ := List.mem_map.1 ha
+    obtain ⟨y, _, rfl⟩ := List.mem_map.1 hb
+    simp
+
+/-! ## independence of the active rows -/
+
+theorem combineAux_replicate_false (k : Nat) : ∀ (rows : List Pauli) (acc : Pauli),
+    combineAux (List.replicate k false) rows acc = acc := by
+  induction k with
+  | zero => intro rows acc; exact combineAux_nil_left rows acc
+  | succ k ih =>
+    intro rows acc
+    cases rows with
+    | nil => exact combineAux_nil_right _ acc
+    | cons r rs => rw [List.replicate_succ, combineAux_cons]; exact ih rs acc
+
+/-- rows commuting with `D` do not change the commutation of the accumulator with `D` -/
+theorem acq_combineAux_commute (n : Nat) (D : PStr) : ∀ (c : List Bool) (rows : List Pauli) (acc : Pauli),
+    (∀ R ∈ rows, R.g.length = n) → acc.g.length = n → (∀ R ∈ rows, acq R.g D = 0) →
+    acq (combineAux c rows acc).g D = acq acc.g D := by
+  intro c rows
+  induction rows generalizing c with
+  | nil => intro acc _ _ _; rw [combineAux_nil_right]
+  | cons R rs ih =>
+    intro acc hl ha hD
+    cases c with
+    | nil => rw [combineAux_nil_left]
+    | cons b cs =>
+      rw [combineAux_cons]
+      have hR : R.g.length = n := hl R (by simp)
+      have hrs : ∀ R ∈ rs, R.g.length = n := fun R h => hl R (by simp [h])
+      have hDs : ∀ R ∈ rs, acq R.g D = 0 := fun R h => hD R (by simp [h])
+      cases b with
+      | false => exact ih cs acc hrs ha hDs
+      | true =>
+        rw [if_pos rfl, ih cs (mul acc R) hrs (by rw [length_mul _ _ (ha.trans hR.symm)]; exact ha) hDs,
+          mul_g, acq_xorS_left _ _ _ (ha.trans hR.symm), hD R (by simp)]
+        have := acq_bit acc.g D
+        omega
+
+/-- if exactly row `a` anticommutes with `D`, the combination anticommutes with `D` iff row `a` is selected -/
+theorem acq_combineAux_pick (n : Nat) (D : PStr) : ∀ (rows : List Pauli) (a : Nat) (c : List Bool) (acc : Pauli),
+    (∀ R ∈ rows, R.g.length = n) → acc.g.length = n → a < rows.length → c.length = rows.length →
+    (∀ k, k < rows.length → acq (rowAt rows k).g D = if k = a then 1 else 0) →
+    acq (combineAux c rows acc).g D = (acq acc.g D + b2i (c.getD a false)) % 2 := by
+  intro rows
+  induction rows with
+  | nil => intro a c acc _ _ h; simp at h
+  | cons R rs ih =>
+    intro a c acc hl ha hlt hc hD
+    cases c with
+    | nil => simp at hc
+    | cons b cs =>
+      rw [combineAux_cons]
+      have hR : R.g.length = n := hl R (by simp)
+      have hrs : ∀ R ∈ rs, R.g.length = n := fun R h => hl R (by simp [h])
+      have hcs : cs.length = rs.length := by simpa using hc
+      have hacc' : (if b = true then mul acc R else acc).g.length = n := by
+        cases b
+        · simpa using ha
+        · rw [if_pos rfl, length_mul _ _ (ha.trans hR.symm)]; exact ha
+      have hbit := acq_bit acc.g D
+      cases a with
+      | zero =>
+        have hR1 : acq R.g D = 1 := by
+          have := hD 0 (by simp)
+          rwa [rowAt_cons_zero, if_pos rfl] at this
+        have hDs : ∀ R' ∈ rs, acq R'.g D = 0 := by
+          intro R' hR'
+          obtain ⟨k, hk, rfl⟩ := List.getElem_of_mem hR'
+          have := hD (k + 1) (by simp; omega)
+          rw [rowAt_cons_succ, rowAt_of_lt rs k hk] at this
+          simpa using this
+        rw [acq_combineAux_commute n D cs rs _ hrs hacc' hDs]
+        cases b
+        · simp [b2i]; omega
+        · rw [if_pos rfl, mul_g, acq_xorS_left _ _ _ (ha.trans hR.symm), hR1]; simp [b2i]
+      | succ a =>
+        have hR0 : acq R.g D = 0 := by
+          have := hD 0 (by simp)
+          rw [rowAt_cons_zero] at this
+          simpa using this
+        have hDs : ∀ k, k < rs.length → acq (rowAt rs k).g D = if k = a then 1 else 0 := by
+          intro k hk
+          have := hD (k + 1) (by simp; omega)
+          rw [rowAt_cons_succ] at this
+          simpa using this
+        rw [ih a cs _ hrs hacc' (by simpa using hlt) hcs hDs]
+        have : (b :: cs).getD (a + 1) false = cs.getD a false := by simp
+        rw [this]
+        cases b
+        · simp
+        · rw [if_pos rfl, mul_g, acq_xorS_left _ _ _ (ha.trans hR.symm), hR0]; omega
+
+theorem tabInv_N (st : State) (n : Nat) (h : TabInv st n) : st.N = n := by
+  unfold State.N; rw [h.1]; omega
+
+theorem length_active (st : State) (n : Nat) (h : TabInv st n) : st.active.length = n - st.r := by
+  unfold State.active
+  rw [tabInv_N st n h]
+  simp [h.1]; omega
+
+theorem rowAt_active (st : State) (n : Nat) (h : TabInv st n) (k : Nat) (hk : k < n - st.r) :
+    rowAt st.active k = rowAt st.rows (st.r + k) := by
+  rw [rowAt_eq, rowAt_eq]
+  unfold State.active
+  rw [tabInv_N st n h, List.getElem?_drop, List.getElem?_take_of_lt (by omega)]
+
+theorem active_rows_length (st : State) (n : Nat) (h : TabInv st n) : ∀ R ∈ st.active, R.g.length = n := by
+  intro R hR
+  exact h.2.2.1 R (List.mem_of_mem_take (List.mem_of_mem_drop hR))
+
+/-- the partner (destabilizer) of active row `a` reads off bit `a` of the selector -/
+theorem acq_combine_partner (st : State) (n : Nat) (h : TabInv st n) (c : List Bool) (hc : c.length = n - st.r)
+    (a : Nat) (ha : a < n - st.r) :
+    acq (combine st.N c st.active).g (rowAt st.rows (n + st.r + a)).g = b2i (c.getD a false) := by
+  have hlen := length_active st n h
+  unfold combine
+  rw [acq_combineAux_pick n _ st.active a c ⟨idStr st.N, 0⟩ (active_rows_length st n h)
+    (by rw [tabInv_N st n h]; exact length_idStr n) (by rw [hlen]; exact ha) (by rw [hlen, hc])]
+  · rw [acq_idStr_left]
+    cases c.getD a false <;> simp [b2i]
+  · intro k hk
+    rw [hlen] at hk
+    rw [rowAt_active st n h k hk, h.2.2.2.1 (st.r + k) (n + st.r + a) (by omega) (by omega)]
+    by_cases hka : k = a
+    · subst hka; rw [if_pos (Or.inl (by omega)), if_pos rfl]
+    · rw [if_neg (by omega), if_neg hka]
+
+theorem combine_injective (st : State) (n : Nat) (h : TabInv st n) (c d : List Bool)
+    (hc : c.length = n - st.r) (hd : d.length = n - st.r)
+    (he : (combine st.N c st.active).g = (combine st.N d st.active).g) : c = d := by
+  apply List.ext_getElem (hc.trans hd.symm)
+  intro a h1 h2
+  have ha : a < n - st.r := by rw [← hc]; exact h1
+  have e1 := acq_combine_partner st n h c hc a ha
+  have e2 := acq_combine_partner st n h d hd a ha
+  rw [he, e2] at e1
+  have hc' : c.getD a false = c[a] := by simp [h1]
+  have hd' : d.getD a false = d[a] := by simp [h2]
+  rw [hc', hd'] at e1
+  revert e1
+  cases c[a] <;> cases d[a] <;> simp [b2i]
+
+theorem combine_all_false (N k : Nat) (rows : List Pauli) :
+    combine N (List.replicate k false) rows = ⟨idStr N, 0⟩ :=
+  combineAux_replicate_false k rows _
+
+end St
 end PC
